@@ -425,6 +425,14 @@ func c16Apply(s *c16State, e c16Ev) {
 		if strings.Contains(e.Init, "synced") {
 			s.cycle(false, nil, "init")
 		}
+		if strings.Contains(e.Init, "pending") {
+			// both sets are programmed and both have a member change waiting: the next restore is a
+			// multi-set batch that is NOT covered by the start-of-day full resync
+			s.want["a"].M["10.0.0.2"] = true
+			s.ips.AddMembers("a", []string{"10.0.0.2"})
+			s.want["b"].M["10.0.0.1/32"] = true
+			s.ips.AddMembers("b", []string{"10.0.0.1/32"})
+		}
 		if strings.Contains(e.Init, "filter-b") {
 			// set a is programmed and then filtered out: still in the kernel, no longer needed
 			s.filter = map[string]bool{"b": true}
@@ -551,7 +559,8 @@ func c16Reduce(pts []c16Fault, r *c16RecCmd) []c16Fault {
 
 func c16Enabled(s *c16State, depth int) []c16Ev {
 	if depth == 0 {
-		inits := []c16Ev{{Op: "init", Init: "clean"}, {Op: "init", Init: "clean+want"}, {Op: "init", Init: "stale"}, {Op: "init", Init: "stale+want"}}
+		inits := []c16Ev{{Op: "init", Init: "clean"}, {Op: "init", Init: "clean+want"}, {Op: "init", Init: "stale"}, {Op: "init", Init: "stale+want"},
+			{Op: "init", Init: "clean+want+synced+pending"}}
 		if s.cfg.Filter {
 			inits = append(inits, c16Ev{Op: "init", Init: "clean+want+synced+filter-b"})
 		}
@@ -821,7 +830,7 @@ func TestVerif_C16(t *testing.T) {
 	logrus.SetLevel(logrus.PanicLevel)
 	logrus.SetOutput(c16Discard{})
 	vk.Run(t, "C16", func(c *vk.Ctx) {
-		c.Rule("states = (kernel ipset model incl. rule references, desired sets, Felix's internal trackers/dirty set/resync-queue tiers/flags) over 2 set IDs (hash:ip a, hash:net b), 2 members each, maxelem {4,8}, 4 starting kernels (foreign sets only / plus stale Felix main+temp+legacy sets, each with or without an initial desired state); " +
+		c.Rule("states = (kernel ipset model incl. rule references, desired sets, Felix's internal trackers/dirty set/resync-queue tiers/flags) over 2 set IDs (hash:ip a, hash:net b), 2 members each, maxelem {4,8}, 5 starting states (foreign sets only / plus stale Felix main+temp+legacy sets, each with or without an initial desired state); " +
 			"transitions = one API call, one outside change to the kernel, a restart, or one apply cycle [QueueResync]+ApplyUpdates+tables+ApplyDeletions of the real IPSets with at most N injected command failures, fault points enumerated per state by a dry run (every command x every failure mode x every restore line / list-output line); " +
 			"in every state two fault-free continuation probes (without and with resync) are run to quiescence; non-trivial = a cycle that changed the kernel or hit a fault")
 		c.Assume("kernel ipset semantics are those of the harness model (create/add/del --exist/swap/destroy incl. destroy-refused-while-referenced, swap needs equal type); the set type of a given set ID never changes (the kernel cannot swap sets of different types, Felix encodes the type in the name)")
@@ -902,6 +911,11 @@ func TestVerif_C16(t *testing.T) {
 			cfg.Filter = true
 			cfg.MaxFaults = 0
 			hbfs.Explore(c, c16Spec(cfg, 4, false))
+			// two failures inside one apply cycle (e.g. a multi-set restore fails and a re-read of the
+			// retry fails too), from every starting state
+			two := quickCfg
+			two.MaxFaults = 2
+			hbfs.Explore(c, c16Spec(two, 2, false))
 		} else {
 			// small explorations first, so that a deadline hit on a loaded machine cuts the big ones
 			cfg := c16Cfg{Step: BackgroundResyncTimeBudget, MaxFaults: 1, Reduced: true}
